@@ -36,6 +36,7 @@ PosSpec gen_position(Rng& r, int max_plies, int source_mix);
 std::string gen_sparse_fen(Rng& r, int extra_min, int extra_max, bool allow_pawns);
 
 bool fen_is_sane(const std::string& fen);
+std::string gen_heavy_fen(Rng& r);
 
 }  // namespace sim
 #endif
